@@ -190,6 +190,44 @@ def nontrivial_key(t):
     return None
 
 
+def wide_expand(res, tier, seed):
+    """expand_tied_ballot / resolve_profile_ties on weights whose share  w / (k1! k2! ...)  has a denominator beyond TLC's exact range
+    (up to ~10^9): each linearisation exactly once, equal weights, adding up to the original -- ExpandTies of ProfileADT.tla evaluated in
+    exact Python fractions (declared in evidence as python_compared)."""
+    import itertools, math
+    from fractions import Fraction as F
+    from ..common import load_votekit, quiet
+    load_votekit()
+    from votekit import Ballot, PreferenceProfile
+    from votekit.utils import expand_tied_ballot, resolve_profile_ties
+    rng = random.Random(1212 + seed)
+    weights = [F(2, 3) ** 12, F(3, 250007), F(1, 1500), F(7, 999983), F(1, 3) ** 9, F(5, 1048573)]
+    shapes = [[["A", "B"], ["C"]], [["A", "B", "C"]], [["A"], ["B", "C", "D"]], [["A", "B"], ["C", "D"]], [["A", "B", "C", "D", "E", "F"]],
+              [["A", "B", "C", "D"], ["E"]]]
+    n = 0
+    for _ in range(40 if tier == "quick" else 400):
+        w, shape = rng.choice(weights), rng.choice(shapes)
+        b = Ballot(ranking=tuple(frozenset(g) for g in shape), weight=w)
+        nlin = math.prod(math.factorial(len(g)) for g in shape)
+        want = set(tuple(c for part in parts for c in part) for parts in itertools.product(*[list(itertools.permutations(g)) for g in shape]))
+        n += 1
+        try:
+            with quiet():
+                out = expand_tied_ballot(b)
+                prof = resolve_profile_ties(PreferenceProfile(ballots=(b,)))
+        except Exception as ex:  # noqa
+            res.violation("ExpandTies:WideWeights(py):Error", "%s on weight %s, shape %s" % (type(ex).__name__, w, shape), {"weight": str(w), "shape": shape})
+            continue
+        got = [tuple(next(iter(s)) for s in x.ranking) for x in out]
+        if sorted(got) != sorted(want) or any(x.weight != w / nlin for x in out) or sum(x.weight for x in out) != w \
+                or prof.total_ballot_wt != w:
+            res.violation("ExpandTies:WideWeights(py)", "expanding a tied ballot of weight %s (%d linear orders): the parts are not the %d orders at weight w/%d each "
+                          "adding up to w (sum %s)" % (w, nlin, nlin, nlin, sum(x.weight for x in out)), {"weight": str(w), "shape": shape})
+    res.notes["python_compared"] = n
+    res.notes["python_compared_note"] = ("expand_tied_ballot on weights whose share has a denominator above TLC's exact range is compared with the exact-fraction "
+                                         "reading of ProfileADT!ExpandTies (each order once, weight w / prod k!)")
+
+
 def run(tier, seed, replay=None):
     from .. import adt
     res = Result(PID, tier, seed)
@@ -229,6 +267,8 @@ def run(tier, seed, replay=None):
         if k:
             res.nontrivial.add(k)
     judge_calls(res, PID, "ProfileADTTrace", traces, sig_of=sig_of, what="ballot-editing utility disagrees with the value model")
+    if not replay:
+        wide_expand(res, tier, seed)
     ops = {}
     for t in traces:
         ops[t["op"]] = ops.get(t["op"], 0) + 1
